@@ -452,6 +452,21 @@ func checkQueries(cfg bsiCfg, w *WB, workers []int, evals *int64, known func(*ev
 						}
 					}
 				}
+				// the plain call: no filter argument at all
+				if gotNil, ok := w.B.TransposeWithCountsNilFilter(par, f.cols, f.nilF); ok {
+					bad := len(gotNil) != len(h)
+					for k, cnt := range h {
+						if gotNil[k] != cnt {
+							bad = true
+						}
+					}
+					if bad {
+						if f := fail("TransposeWithCounts", "nil-filter", "TransposeWithCounts(workers=%d, found=%s, filter=nil) = %v want %v [%s, map %s]", par, f.name, gotNil, h, cfg.Name, m.key()); !known(f) {
+							return f
+						}
+					}
+					n++
+				}
 				n += 2
 			}
 		}
